@@ -127,3 +127,24 @@ Proof.
   split; [intros l H; cbn in H; repeat (destruct H as [H|H]; [try discriminate; inversion H; subst; reflexivity|]); destruct H|].
   split; [reflexivity|]. vm_compute. reflexivity.
 Qed.
+
+(* the decision procedures as the check runs them: the isomorphism search with neighbour-guided candidates and
+   first-success exit (Model/IsoFast.v) is the specified one (Spec/Iso.v), function by function *)
+From GV Require Import Model.IsoFast Proofs.IsoFastThm.
+Theorem C01_fast_search_is_the_specified_one :
+  (forall m1 m2, all_isos_f m1 m2 = all_isos m1 m2) /\
+  (forall m1 m2, same_molecule_f m1 m2 = same_molecule m1 m2) /\
+  (forall m1 m2, mirror_image_f m1 m2 = mirror_image m1 m2) /\
+  (forall m1 m2 ok, same_except_at_f m1 m2 ok = same_except_at m1 m2 ok) /\
+  (forall m1 m2 at_, inverted_exactly_at_f m1 m2 at_ = inverted_exactly_at m1 m2 at_) /\
+  (forall out t, denotes_with same_molecule_f out t = denotes out t).
+Proof.
+  repeat split; intros.
+  - apply all_isos_f_eq.
+  - apply same_molecule_f_eq.
+  - apply mirror_image_f_eq.
+  - apply same_except_at_f_eq.
+  - apply inverted_exactly_at_f_eq.
+  - apply denotes_f_eq.
+Qed.
+Print Assumptions C01_fast_search_is_the_specified_one.
